@@ -238,3 +238,21 @@ func FlowHeld(use ssa.Instruction, gen, kill func(ssa.Instruction) bool) bool {
 func MustPass(to ssa.Instruction, pred func(ssa.Instruction) bool) bool {
 	return FlowHeld(to, pred, func(ssa.Instruction) bool { return false })
 }
+
+// Callee is StaticCallee with instantiations of generic functions mapped to
+// their generic origin: the rules analyse one body per source function, and
+// the origin is the one listed in Program.Funcs. c is a *ssa.CallCommon or a
+// ssa.CallCommon.
+func Callee(c interface{}) *ssa.Function {
+	var fn *ssa.Function
+	switch x := c.(type) {
+	case *ssa.CallCommon:
+		fn = x.StaticCallee()
+	case ssa.CallCommon:
+		fn = x.StaticCallee()
+	}
+	if fn != nil && fn.Origin() != nil {
+		return fn.Origin()
+	}
+	return fn
+}
